@@ -25,7 +25,7 @@ func main() {
 const header = "From Verif Require Import Base.Prelude Base.Decimal Enc.JsonEnc Misc.Level Api.Exec Harness.C01H."
 
 func run(c *Ctx) {
-	c.Res.Rule = "a case is a whole logging program: global settings, a logger derivation chain (With/UpdateContext with context ops, hooks incl. the library's LevelHook, byte-neutral Level/Output/Sample, stretches derived while the logger is Disabled or descends from Nop()), one event started through WithLevel / the level's method / Logger.Write / Print (level, field ops with nesting Dict/Array/Object/EmbedObject/Fields/Func/errors, message, finalizer); values drawn from class alphabets (escaping/UTF-8 classes, integer/float/time boundaries; directed: type names with tags, years and zone offsets at the ends of time.Time, neighbouring instants under dot- and comma-fraction layouts; another event started on a logger and writer of its own at every kind of place of the program - caller code, callback, marshaler, dict under construction, hook - before / after a Discard(), finalized at once or after the outer event: each inner event is a case of its own, every Write on its writer is accounted for); corpus of fixed defects first; non-trivial = the event was written and has at least 3 members; distinct by Gallina term"
+	c.Res.Rule = "a case is a whole logging program: global settings, a logger derivation chain (With/UpdateContext with context ops, hooks incl. the library's LevelHook, byte-neutral Level/Output/Sample, stretches derived while the logger is Disabled or descends from Nop()), one event started through WithLevel / the level's method / Logger.Write / Print (level, field ops with nesting Dict/Array/Object/EmbedObject/Fields/Func/errors, message, finalizer); values drawn from class alphabets (escaping/UTF-8 classes, integer/float/time boundaries; directed: type names with tags, years and zone offsets at the ends of time.Time, neighbouring instants under dot- and comma-fraction layouts, float32 and float64 bit patterns at and next to every threshold of the float text in both widths and signs (C02); another event started on a logger and writer of its own at every kind of place of the program - caller code, callback, marshaler, dict under construction, hook - before / after a Discard(), finalized at once or after the outer event: each inner event is a case of its own, every Write on its writer is accounted for); corpus of fixed defects first; non-trivial = the event was written and has at least 3 members; distinct by Gallina term"
 	c.OpenShards(header, "c01_case * c01_obs", "mismatches c01_run c01_eqb", 400)
 	n := 3000
 	if c.Thorough() {
